@@ -200,6 +200,9 @@ pub struct Ctx {
     /// every outcome actually handed out, in order (replay feeds this back as RngPlan::List)
     pub rng_record: Vec<Outcome>,
     pub rng_prev_u: f64,
+    /// the previous complete vector of uniform outcomes (for the "repeat the sample" outcome)
+    pub prev_vec: Vec<f64>,
+    pub prev_vec_next: Vec<f64>,
     /// optional absolute targets: `abs[k][i]` is tried for draw number `n` with `i = n % abs_period`
     pub abs: Vec<Vec<f64>>,
     pub abs_period: usize,
@@ -238,6 +241,8 @@ impl Ctx {
             rng: RngPlan::Stream { rng: Rng::new(0), adversarial: 0.0 },
             rng_record: Vec::new(),
             rng_prev_u: 0.5,
+            prev_vec: Vec::new(),
+            prev_vec_next: Vec::new(),
             abs: Vec::new(),
             abs_period: 6,
             log: LogHash::default(),
@@ -285,29 +290,54 @@ impl Ctx {
             RngPlan::Stream { rng, adversarial } => {
                 // `rng` is only the seed carrier here: one derived generator per (path, draw index)
                 let base = rng.s0();
+                let period = self.abs_period.max(1) as u64;
+                let (group, i) = (k / period, (k % period) as usize);
+                // adversarial outcomes are decided per VECTOR (group of `period` consecutive
+                // draws, e.g. the six joints of one sample), so that a whole sample can be
+                // "exactly the goal", "a point next to the start", "the lower corner" ...
+                let mut g = Rng::new(mix(&[base, path, group, 0x6A0]));
+                let vector_adv = *adversarial > 0.0 && g.unit() < *adversarial;
                 let mut r = Rng::new(mix(&[base, path, k]));
                 let u = r.unit();
-                let adv = *adversarial > 0.0 && r.unit() < *adversarial;
-                if !adv {
-                    Outcome::U(u)
-                } else {
-                    let kinds = if self.abs.is_empty() { 3 } else { 5 };
-                    match r.below(kinds) {
+                if vector_adv {
+                    let kinds = if self.abs.is_empty() { 3 } else { 6 };
+                    match g.below(kinds) {
                         0 => Outcome::Low,
                         1 => Outcome::HighMinus,
-                        2 => Outcome::U(self.rng_prev_u),
+                        2 => Outcome::U(self.prev_vec.get(i).copied().unwrap_or(0.5)),
                         _ => {
-                            let which = r.below(self.abs.len());
-                            let i = (k as usize) % self.abs_period.max(1);
+                            let which = g.below(self.abs.len());
                             match self.abs[which].get(i) {
                                 Some(v) => Outcome::Abs(*v),
                                 None => Outcome::U(u),
                             }
                         }
                     }
+                } else if *adversarial > 0.0 && r.unit() < *adversarial * 0.15 {
+                    // isolated boundary outcome on one component
+                    if r.chance(0.5) {
+                        Outcome::Low
+                    } else {
+                        Outcome::HighMinus
+                    }
+                } else {
+                    Outcome::U(u)
                 }
             }
         };
+        {
+            let period = self.abs_period.max(1);
+            let i = (k as usize) % period;
+            if self.prev_vec_next.len() != period {
+                self.prev_vec_next = vec![0.5; period];
+            }
+            if let Outcome::U(u) = o {
+                self.prev_vec_next[i] = u;
+            }
+            if i + 1 == period {
+                self.prev_vec = self.prev_vec_next.clone();
+            }
+        }
         match o {
             Outcome::U(u) => self.rng_prev_u = u,
             _ => self.n_rng_adversarial += 1,
